@@ -12,3 +12,4 @@ pub mod fam_sem;
 pub mod fam_sync;
 pub mod fam_thread;
 pub mod prog;
+pub mod wrappers;
